@@ -444,6 +444,51 @@ def h11_rabbit_same_id(S):
             info=f"own message in {email_places}, unacknowledged: {out['unacked']}")
 
 
+def h11_repeated_router(S):
+    """A router object passed more than once: Worker(routers=rs) equals including them one after the other - the last one wins."""
+    from repid import Job, Router, Worker
+    from repid.converter import BasicConverter
+
+    order = [["base", "override", "base"], ["base", "base", "override"], ["override", "base", "override"], ["base", "override"]][S.pick("routers", 4)]
+    ran = []
+    out = {}
+
+    async def main(loop):
+        w = World()
+        await w.open(queues=("reports", "reports_v2"), record=False)
+        base, override = Router(), Router()
+
+        @base.actor(name="report", queue="reports", converter=BasicConverter)
+        async def r_base():
+            ran.append("base@reports")
+
+        @override.actor(name="report", queue="reports_v2", converter=BasicConverter)
+        async def r_over():
+            ran.append("override@reports_v2")
+
+        objs = {"base": base, "override": override}
+        worker = Worker(routers=[objs[n] for n in order], handle_signals=[], _connection=w.conn, graceful_shutdown_time=1.0, messages_limit=1)
+        ref = Router()
+        for n in order:
+            ref.include_router(objs[n])
+        out["same_as_sequential"] = (set(worker.actors) == set(ref.actors)
+                                     and {q: sorted(t) for q, t in worker.topics_by_queue.items() if t} == {q: sorted(t) for q, t in ref.topics_by_queue.items() if t}
+                                     and all(worker.actors[k].queue == ref.actors[k].queue for k in ref.actors))
+        winner_queue = "reports" if order[-1] == "base" else "reports_v2"
+        await Job("report", queue=winner_queue, id_="j1", _connection=w.conn).enqueue()
+        try:
+            await asyncio.wait_for(worker.run(), timeout=5)
+            out["returned"] = True
+        except asyncio.TimeoutError:
+            out["returned"] = False
+        out["want"] = "base@reports" if order[-1] == "base" else "override@reports_v2"
+
+    run_async(main)
+    S.cover("repeated-router")
+    S.check("same-as-including-one-after-the-other", out["same_as_sequential"], info=f"routers={order}")
+    S.check("last-registration-wins", ran == [out["want"]] and out["returned"], info=f"routers={order}: ran {ran}, expected {out['want']}")
+
+
 def h11_redis_window(S):
     """Redis: foreign messages filling one or more fetch windows in front of an own job do not hide it."""
     from repid import Job, Router, Worker
@@ -542,6 +587,9 @@ HARNESSES = [
             bounds={"fetch window": "2 names per round trip (PREFETCH_AMOUNT set by the harness; the code is window-size generic)",
                     "foreign messages in front of the own job": "1..5 (less than, exactly, and more than whole windows)", "category": "normal list or due-delayed set"},
             functions=["connections/redis/consumer.py:_RedisConsumer.__fetch_message_name"], covers=["window-checked"], stubs=["fake Redis server"]),
+    Harness(name="H11-repeated-router", scenario=h11_repeated_router,
+            bounds={"routers": "two routers registering one name on different queues, passed in four orders with repeats"},
+            functions=["worker.py:Worker.__init__", "router.py:Router.include_router"], covers=["repeated-router"]),
     Harness(name="H11-late-registration", scenario=h11_late_registration,
             bounds={"worker": "built from a router, then a registration of the same name through include_router or @worker.actor, on the same or another queue"},
             functions=["worker.py:Worker.run", "router.py:Router.include_router", "router.py:Router.actor"], covers=["late-registration"]),
